@@ -31,6 +31,12 @@ def bad (cmds impl : List String) (kind : String) : Bool := (judge cmds impl).an
 #guard bad ["rx a[i1] 287b312c7d29"] ["err Illegal array size.", "resterr"] "roundtrip-restore-error"
 #guard bad ["rx a[i1] 287b312c7d29"] ["rest a[i2]"] "roundtrip-value-differs"
 
+/-! an entry of a restored mapping must be found through its key, not only listed -/
+#guard ok ["rv 285b31363a312c5d29"] ["rest m{i16:i1}"]
+#guard bad ["rv 285b31363a312c5d29"] ["lookup-miss i16 bucket=6 hash=1 size=16", "rest m{i16:i1}"] "mapping-entry-not-found-by-its-key i16"
+#guard bad ["rx m{i16:i1} 285b31363a312c5d29"] ["lookup-miss i16 bucket=6 hash=1 size=16", "rest m{i16:i1}"] "mapping-entry-not-found-by-its-key"
+#guard bad ["ro 0"] ["ro 1", "lookup-miss s61 bucket=6 hash=1 size=16", "vars a[i0,i0,m{s61:i1},i0,i0,i0,i0]"] "mapping-entry-not-found-by-its-key s61"
+
 /-! memory -/
 #guard bad ["rv 22"] ["sanitizer ERROR: AddressSanitizer: heap-buffer-overflow"] "memory"
 #guard bad ["rv 22"] ["crash signal 11"] "memory"
